@@ -256,6 +256,115 @@ def shared_bounds_corpus():
     return out
 
 
+def same_instant_corpus():
+    """Two numeric effects on ONE ground fluent meeting at ONE instant: every ordered pair of effect kinds out of
+    assign / increase / decrease (the validator's loop is order dependent, the reference is not), arranged in every way
+    two effects can come to be processed together and in both processing orders:
+      * two plan steps: end of an older durative action meets the start of a newer one, two actions starting together,
+        an instantaneous action on the end / start of a durative one, two instantaneous actions, the same action twice
+        (each in both plan orders: equal start times are popped in reverse plan order);
+      * a timed effect of the problem (always processed first) meets a step's effect;
+      * one step, two heap entries: effects at `start+1` and `end-1` coincide when the duration is 2 (not when it is 3);
+      * one step, one entry: two conditional effects declared in that order, their conditions switched on/off by the
+        plan (an unconditional pair is rejected when the action is built).
+    Plans with the two effects at different instants are the controls.  One problem per ordered pair, int and real
+    fluent alternating; judged like every other case (reference semantics + model)."""
+    from unified_planning.environment import Environment
+    from unified_planning.model import Fluent, Problem, InstantaneousAction, DurativeAction
+    from unified_planning.model.timing import StartTiming, EndTiming, GlobalStartTiming
+    from unified_planning.plans import ActionInstance
+    A5, A6, INC, DEC = ("assign", 5), ("assign", 6), ("increase", 1), ("decrease", 1)
+    pairs = [(INC, A5), (A5, INC), (DEC, A5), (A5, DEC), (INC, DEC), (INC, INC), (A5, A6), (A5, A5)]
+    out = []
+    for k, (k1, k2) in enumerate(pairs):
+        env = Environment()
+        tm, em = env.type_manager, env.expression_manager
+        real = k % 2 == 1
+        p = Problem("same-instant", env)
+        x = Fluent("x", tm.RealType() if real else tm.IntType(), environment=env)
+        done = Fluent("done", tm.BoolType(), environment=env)
+        c1 = Fluent("c1", tm.BoolType(), environment=env)
+        c2 = Fluent("c2", tm.BoolType(), environment=env)
+        p.add_fluent(x, default_initial_value=F(1, 2) if real else 0)
+        for b in (done, c1, c2):
+            p.add_fluent(b, default_initial_value=False)
+
+        def val(kind):
+            n = kind[1]
+            return em.Real(F(n) / 2) if real and kind[0] != "assign" else em.Int(n)
+
+        def put(kind, assign, inc, dec, cond=True):
+            {"assign": assign, "increase": inc, "decrease": dec}[kind[0]](x(), val(kind), cond)
+
+        def dur(name, lo, hi=None):
+            a = DurativeAction(name, _env=env)
+            if hi is None:
+                a.set_fixed_duration(lo)
+            else:
+                a.set_closed_duration_interval(lo, hi)
+            return a
+
+        def on_dur(a, t, kind, cond=True):
+            put(kind, lambda fl, v, c: a.add_effect(t, fl, v, c), lambda fl, v, c: a.add_increase_effect(t, fl, v, c),
+                lambda fl, v, c: a.add_decrease_effect(t, fl, v, c), cond)
+
+        def inst(name, kind):
+            a = InstantaneousAction(name, _env=env)
+            put(kind, a.add_effect, a.add_increase_effect, a.add_decrease_effect)
+            return a
+        a_end = dur("a_end", 1, 2); on_dur(a_end, EndTiming(), k1)
+        a_start = dur("a_start", 2); on_dur(a_start, StartTiming(), k1)
+        b_start = dur("b_start", 1); on_dur(b_start, StartTiming(), k2); b_start.add_effect(EndTiming(), done, True)
+        i1, i2 = inst("i1", k1), inst("i2", k2)
+        mid = dur("mid", 2, 3); on_dur(mid, StartTiming(1), k1); on_dur(mid, EndTiming() - 1, k2)
+        both = dur("both", 1); on_dur(both, StartTiming(), k1, c1()); on_dur(both, StartTiming(), k2, c2())
+        on1 = InstantaneousAction("on1", _env=env); on1.add_effect(c1, True)
+        on2 = InstantaneousAction("on2", _env=env); on2.add_effect(c2, True)
+        fin = InstantaneousAction("fin", _env=env); fin.add_effect(done, True)
+        for a in (a_end, a_start, b_start, i1, i2, mid, both, on1, on2, fin):
+            p.add_action(a)
+        put(k1, lambda fl, v, c: p.add_timed_effect(GlobalStartTiming(7), fl, v, c),
+            lambda fl, v, c: p.add_increase_effect(GlobalStartTiming(7), fl, v, c),
+            lambda fl, v, c: p.add_decrease_effect(GlobalStartTiming(7), fl, v, c))
+        p.add_goal(done)
+
+        def st(t, a, d=None):
+            return (F(t), ActionInstance(a), None if d is None else F(d))
+        end = st(F(9, 2), fin)
+        two = [  # (first scheduled, second scheduled); each also in the opposite plan order
+            [st(0, a_end, 2), st(2, b_start, 1)],           # end of the older action meets the start of the newer one
+            [st(0, a_start, 2), st(0, b_start, 1)],         # two actions starting together
+            [st(0, a_end, 2), st(2, i2)],                   # instantaneous action on the end of a durative one
+            [st(1, i1), st(1, b_start, 1)],                 # ... on its start
+            [st(1, i1), st(1, i2)],                         # two instantaneous actions
+        ]
+        plans = []
+        for pl in two:
+            plans += [pl + [end], pl[::-1] + [end]]
+        plans += [
+            [st(0, a_end, 2), st(1, b_start, 1), end],      # controls: the same effects at different instants
+            [st(0, a_end, 2), st(F(5, 2), i2), end],
+            [st(1, i1), st(F(3, 2), i2), end],
+            [st(0, a_end, 2), st(0, a_end, 2), end],        # the same action twice: first kind against itself
+            [st(1, i2), st(1, i2), end],
+            [st(7, b_start, 1)],                            # the problem's timed effect (first kind) meets a step's effect
+            [st(7, i2), end],
+            [st(6, a_end, 1), st(6, b_start, 1)],           # timed effect and the end of a_end at 7 (b_start earlier)
+            [st(6, a_end, 1), st(7, b_start, 1)],           # three sources at 7
+            [st(0, mid, 2), end],                           # one step, two entries coinciding at 1
+            [st(0, mid, 3), end],                           # ... and not coinciding
+            [st(0, mid, F(5, 2)), end],
+            [st(1, both, 1), end],                          # one step, conditional effects: none, first, second, both fire
+            [st(0, on1), st(1, both, 1), end],
+            [st(0, on2), st(1, both, 1), end],
+            [st(0, on1), st(0, on2), st(1, both, 1), end],
+            [st(0, on2), st(0, on1), st(1, both, 1), end],
+            [st(0, on1), st(1, on2), st(1, both, 1), end],  # c2 switched on at the instant of the effects: read before
+        ]
+        out.append(HandTemporal(p, plans, "same-instant-%s-%s-%s" % (k1[0], k2[0], "real" if real else "int")))
+    return out
+
+
 def run(ctx):
     import unified_planning as up
     ok_proofs = ctx.check_props(extra=["theories/Corr/Corr_C05.v"])
@@ -269,7 +378,7 @@ def run(ctx):
              "duration_kinds": {}, "left_open_conditions": 0, "intermediate_conditions": 0, "forall_effects": 0,
              "conditional_effects": 0, "incdec_effects": 0}
     nontriv = set()
-    hand = shared_bounds_corpus()
+    hand = shared_bounds_corpus() + same_instant_corpus()
     stats["hand_problems"] = len(hand)
     for pi in range(len(hand) + nprob):
         gen = hand[pi] if pi < len(hand) else GenTemporal(rng)
